@@ -45,12 +45,12 @@ type scenario struct {
 }
 
 type result struct {
-	sc        scenario
-	w         *lockh.World
-	s         *sched.Sched
-	deadlock  string
-	acquires  int
-	contended int
+	sc          scenario
+	w           *lockh.World
+	s           *sched.Sched
+	deadlock    string
+	acquires    int
+	contended   int
 	perActorOps map[string]int
 }
 
@@ -108,6 +108,9 @@ func runScenario(r *vrun.Run, sc scenario, keep bool) *result {
 		r.Fatalf("scratch: %v", err)
 	}
 	defer os.RemoveAll(dir)
+	if sub, _ := lockh.Names(sc.Index); sub != "" {
+		_ = os.MkdirAll(filepath.Join(dir, sub), 0o755)
+	}
 	rng := r.Rand(sc.Stream+"-sched", sc.Index)
 	var pol sched.Policy
 	switch sc.Policy {
@@ -122,7 +125,8 @@ func runScenario(r *vrun.Run, sc scenario, keep bool) *result {
 	s.KeepTrace = true
 	res.s = s
 	res.deadlock = sched.Bubble(func() {
-		w := lockh.NewWorld(dir, "lk", s)
+		sub, id := lockh.Names(sc.Index)
+		w := lockh.NewWorld(filepath.Join(dir, sub), id, s)
 		w.KeepEvents = keep
 		res.w = w
 		s.Run(func() {
